@@ -507,7 +507,56 @@ def m7_view_hashes_and_roots(S):
             S.prove(ctx, ob, f"{fn}_of_{n}_items_binds_them_in_order", [], bool(got == want and not panics(ps)), extra={"note": str(got)})
 
 
-OBLIGATIONS = [m1_extra_hash, m2_hash_inputs, m3_json_block_extension, m4_molecule_strict_is_canonical, m5_molecule_builders_write_canonical_layout, m6_json_field_wiring, m7_view_hashes_and_roots]
+def m8_decode_helpers_and_extension_hash(S):
+    """(a) the store's decode helper `from_slice_should_be_ok` is STRICT decoding (`from_slice`) and panics on rejection, `from_compatible_slice_should_be_ok` is the compatible one
+    -- so records read back from the store are canonical encodings; (b) `BlockReader::calc_extension_hash` is Some(H(raw data of the extension)) exactly when the block has an
+    extension field -- also for an EMPTY extension -- so the extra hash binds the extension's presence"""
+    ob = "C15.m8"
+    for short, want in (("from_slice_should_be_ok", "from_slice"), ("from_compatible_slice_should_be_ok", "from_compatible_slice")):
+        f = [x for x in S.prog.funcs if x.kind == "fn" and x.short == short and "gen-types/src/prelude.rs" in x.name and "{closure" not in x.name]
+        if len(f) != 1:
+            raise Inconclusive(f"{short}: {len(f)} candidates")
+        ctx = S.ctx()
+        ctx.uninterpreted_unknown_calls = True
+        calls = []
+        okb = ctx.bool("decoder_accepts")
+
+        def dec(ex, c, a, d, calls=calls):
+            calls.append(re.sub(r"::<[^<>]*>$", "", c).split("::")[-1])
+            return mk_result(okb.t, OpaqueV("decoded_reader", "R"), OpaqueV("verr", "VerificationError"), d)
+        ctx.env = [(E.rx(r"Reader<'_>>::(from_slice|from_compatible_slice|new_unchecked)$|Reader<'r>>::(from_slice|from_compatible_slice|new_unchecked)$"), dec),
+                   (E.rx(r"hex_string|fmt::|panic_fmt|format"), E.opaque_call())]
+        ps = S.run(ctx, f[0], [ctx.ref_to(OpaqueV("slice", "[u8]"))], allow=("return", "panic", "unsupported"))
+        rs = returns(ps)
+        S.prove(ctx, ob, f"{short}_decodes_with_{want}_only", [], bool(calls and all(c == want for c in calls)), extra={"note": str(calls)})
+        S.prove(ctx, ob, f"{short}_returns_iff_the_decoder_accepts", [], T.iff(T.or_(*[p.cond() for p in rs]) if rs else False, okb.t))
+        S.prove(ctx, ob, f"{short}_returns_the_decoded_reader", [], bool(rs and all(getattr(p.value, "name", "") == "decoded_reader" for p in rs)))
+    # (b)
+    f = _by_impl(S, "calc_extension_hash", r"packed::BlockReader<'r>")
+    ctx = S.ctx()
+    ctx.uninterpreted_unknown_calls = True
+    has_ext = ctx.bool("block_has_extension_field")
+    ctx.env = [(E.rx(r"::extension$"), lambda ex, c, a, d: mk_option(has_ext.t, OpaqueV("ext", "BytesReader"), d)),
+               (E.rx(r"::calc_raw_data_hash$"), _call("H_raw")),
+               (E.rx(r"::is_empty$|::len$|::raw_data$"), lambda ex, c, a, d: ex.ctx.fresh_of_type("extension_is_empty_or_len", d))]
+    ps = S.run(ctx, f, [ctx.ref_to(OpaqueV("blk", "BlockReader"))])
+    S.prove(ctx, ob, "calc_extension_hash_no_panic", [], T.not_(cond_of(panics(ps))))
+    some = []
+    bad_val = False
+    for p in returns(ps):
+        v = p.value
+        if not isinstance(v, EnumV):
+            raise Inconclusive("calc_extension_hash: unexpected value")
+        is_some = (v.disc == 1) if isinstance(v.disc, int) else T.eq(v.disc, 1)
+        some.append(T.and_(p.cond(), is_some))
+        pay = v.payload(1)
+        if pay and v.disc != 0 and _nmx(None, pay[0]) != "H_raw(ext)":
+            bad_val = True
+    S.prove(ctx, ob, "extension_hash_is_present_iff_the_block_has_an_extension_field_even_if_empty", [], T.iff(T.or_(*some), has_ext.t))
+    S.prove(ctx, ob, "extension_hash_is_the_hash_of_the_extension_raw_data", [], bool(not bad_val))
+
+
+OBLIGATIONS = [m1_extra_hash, m2_hash_inputs, m3_json_block_extension, m4_molecule_strict_is_canonical, m5_molecule_builders_write_canonical_layout, m6_json_field_wiring, m7_view_hashes_and_roots, m8_decode_helpers_and_extension_hash]
 
 _P = os.path.join(os.path.dirname(__file__), "..", "kani", "molecule", "gen_molecule.json")
 _OKFILE = os.path.join(os.path.dirname(__file__), "..", "kani", "molecule", "feasible.json")
